@@ -18,6 +18,15 @@ CHECKS = {
             'object. Bounded-exhaustive, not a proof for longer histories or larger label alphabets.',
             'Trusted: numpy, scipy.ndimage.find_objects, rasterio/shapely; state = instance __dict__ digest.',
             'DESIGN.md section 4 C05'),
+    'C04': ('exploration',
+            'small-scope exhaustive enumeration: every image of the listed small shapes over a 4/6-symbol pixel alphabet x '
+            'connectivity x npixels x threshold form, vs. a pure-Python union-find labelling reference',
+            'All images up to 3x3 (quick) / 3x4 and binary 4x4 (thorough) over {below, ==threshold, above, NaN, +inf, masked} '
+            'are labelled by the real detect_sources and compared bit-exactly with an independent union-find reference, '
+            'including None/NoDetectionsWarning, pre-seeded caches vs a fresh SegmentationImage, detect_threshold and '
+            'SourceFinder(deblend=False). Exhaustive within the bound; larger frames are not covered.',
+            'Trusted: numpy comparisons. scipy.ndimage.label is not trusted (re-derived).',
+            'DESIGN.md section 4 C04'),
 }
 
 NOT_BUILT_REASON = ('check not built yet (bounded exhaustive design exists in DESIGN.md section 4; '
